@@ -25,11 +25,18 @@ def main():
     root = Path(tempfile.mkdtemp(prefix="xvsub-"))
     out = []
     try:
-        mods = [cfgbuild.load_library(lib, root) for lib in data["libs"]]
+        mods = []
+        for lib in data["libs"]:
+            try:
+                mods.append(cfgbuild.load_library(lib, root))
+            except Exception as e:
+                mods.append(RuntimeError(f"library cannot be loaded: {type(e).__name__}: {e}"[:300]))
         for ci, case in enumerate(data["cases"]):
             rec = {"variants": [], "error": None, "lines": [], "impl": [], "argsrc": {}}
             try:
                 mod = mods[case["lib"]]
+                if isinstance(mod, Exception):
+                    raise mod
                 lib = data["libs"][case["lib"]]
                 objs = cfgbuild.build_graph(mod, case["graph"])
                 rec["unsubmitted"] = objs[0].__xpm__.full_identifier.all.hex()
